@@ -278,7 +278,38 @@ impl<'tcx> Cx<'tcx> {
                 match c.const_ {
                     Const::Unevaluated(uv, _) => {
                         let p = self.path(uv.def);
-                        let _ = write!(o, ",{{\"item\":{}}}", q(&p));
+                        // a promoted `&Enum::Variant`: name the variant the promoted body builds
+                        let mut variant: Option<String> = None;
+                        if let Some(pi) = uv.promoted {
+                            if uv.def.is_local() {
+                                let proms = tcx.promoted_mir(uv.def);
+                                if let Some(pb) = proms.get(pi) {
+                                    let mut n = 0;
+                                    for bb in pb.basic_blocks.iter() {
+                                        for st in bb.statements.iter() {
+                                            if let StatementKind::Assign(bx) = &st.kind {
+                                                if let Rvalue::Aggregate(kind, _) = &bx.1 {
+                                                    if let AggregateKind::Adt(d, vi, _, _, _) = &**kind {
+                                                        let adt = tcx.adt_def(*d);
+                                                        if adt.is_enum() {
+                                                            n += 1;
+                                                            variant = Some(format!("{}::{}", self.path(*d), adt.variant(*vi).name.as_str()));
+                                                        }
+                                                    }
+                                                }
+                                            }
+                                        }
+                                    }
+                                    if n != 1 {
+                                        variant = None;
+                                    }
+                                }
+                            }
+                        }
+                        match variant {
+                            Some(v) => { let _ = write!(o, ",{{\"item\":{},\"variant\":{}}}", q(&p), q(&v)); }
+                            None => { let _ = write!(o, ",{{\"item\":{}}}", q(&p)); }
+                        }
                     }
                     _ => o.push_str(",null"),
                 }
